@@ -23,6 +23,9 @@ const TLV_PAYMENT_METADATA: u64 = 16;
 const TLV_TRAMPOLINE_INVOICE: u64 = 33001;
 const TLV_TRAMPOLINE_AMOUNT: u64 = 33003;
 
+/// Time between attempts to obtain the state of a pending payment.
+const PENDING_PAYMENT_RETRY_INTERVAL: Duration = Duration::from_secs(1);
+
 /// HtlcManager is the main handler for htlcs. It aggregates htlcs into payments
 /// based on the payment hash.
 pub struct HtlcManager<B, N, P, S>
@@ -450,69 +453,70 @@ async fn payment_lifecycle<B, N, P, S>(
                 attempt_id.attempt_id,
                 attempt_time_seconds, "Payment is pending, awaiting payment."
             );
-            match params
-                .payment_provider
-                .wait_payment(*trampoline.invoice.payment_hash())
-                .await
-            {
-                Ok(maybe_preimage) => {
-                    if let Some(preimage) = maybe_preimage {
-                        trace!("pending payment resolved with preimage");
-                        resolve(
-                            &payments,
-                            &trampoline,
-                            HtlcAcceptedResponse::resolve(preimage.clone()),
-                        )
-                        .await;
-                        match params
-                            .store
-                            .mark_succeeded(&trampoline, &attempt_id, preimage)
-                            .await
-                        {
-                            Ok(_) => {}
-                            Err(e) => {
-                                error!("Failed to mark payment as succeeded: {:?}", e);
-                            }
-                        }
-                        return;
-                    }
-
-                    trace!("pending payment resolved without preimage");
-                    match params.store.mark_failed(&trampoline, &attempt_id).await {
-                        Ok(_) => {}
-                        Err(e) => {
-                            error!("Failed to mark payment as failed: {:?}", e);
+            // The payment is pending, so the htlcs cannot be resolved before
+            // the fate of the payment is known. If the node cannot tell right
+            // now, keep asking.
+            loop {
+                match params
+                    .payment_provider
+                    .wait_payment(*trampoline.invoice.payment_hash())
+                    .await
+                {
+                    Ok(maybe_preimage) => {
+                        if let Some(preimage) = maybe_preimage {
+                            trace!("pending payment resolved with preimage");
                             resolve(
                                 &payments,
                                 &trampoline,
-                                HtlcAcceptedResponse::temporary_node_failure(),
+                                HtlcAcceptedResponse::resolve(preimage.clone()),
                             )
                             .await;
+                            match params
+                                .store
+                                .mark_succeeded(&trampoline, &attempt_id, preimage)
+                                .await
+                            {
+                                Ok(_) => {}
+                                Err(e) => {
+                                    error!("Failed to mark payment as succeeded: {:?}", e);
+                                }
+                            }
                             return;
                         }
-                    }
-                    // Get the time left since this attempt was started. Note
-                    // that this is not really the mpp timeout time remaining,
-                    // but it's the mpp timeout minus the start of the payment
-                    // attempt. This is the best we can do without storing the
-                    // start time of every single htlc when it arrives. This
-                    // check is mainly here to not let restarts reset the mpp
-                    // timeout entirely.
-                    params.mpp_timeout.saturating_sub(
-                        std::time::SystemTime::now()
-                            .duration_since(std::time::UNIX_EPOCH)
-                            .context("duration since unix epoch should always work")
-                            .unwrap()
-                            .saturating_sub(Duration::from_secs(attempt_time_seconds)),
-                    )
-                }
-                Err(e) => {
-                    error!("Failed to await pending payment: {:?}", e);
 
-                    // TODO: Now what? Apparently we have a pending payment, so
-                    // we shouldn't return here, but there is also nothing else
-                    // possible to do! Should we panic?
-                    todo!("Failed to await pending payment, but cannot resolve yet, because it's pending.");
+                        trace!("pending payment resolved without preimage");
+                        match params.store.mark_failed(&trampoline, &attempt_id).await {
+                            Ok(_) => {}
+                            Err(e) => {
+                                error!("Failed to mark payment as failed: {:?}", e);
+                                resolve(
+                                    &payments,
+                                    &trampoline,
+                                    HtlcAcceptedResponse::temporary_node_failure(),
+                                )
+                                .await;
+                                return;
+                            }
+                        }
+                        // Get the time left since this attempt was started. Note
+                        // that this is not really the mpp timeout time remaining,
+                        // but it's the mpp timeout minus the start of the payment
+                        // attempt. This is the best we can do without storing the
+                        // start time of every single htlc when it arrives. This
+                        // check is mainly here to not let restarts reset the mpp
+                        // timeout entirely.
+                        break params.mpp_timeout.saturating_sub(
+                            std::time::SystemTime::now()
+                                .duration_since(std::time::UNIX_EPOCH)
+                                .context("duration since unix epoch should always work")
+                                .unwrap()
+                                .saturating_sub(Duration::from_secs(attempt_time_seconds)),
+                        );
+                    }
+                    Err(e) => {
+                        error!("Failed to await pending payment, trying again: {:?}", e);
+                        tokio::time::sleep(PENDING_PAYMENT_RETRY_INTERVAL).await;
+                    }
                 }
             }
         }
